@@ -274,7 +274,7 @@ func ruleOrder(w *World, r *Report) {
 				return
 			}
 			between := mayFollow(dom, c) && mayFollow(c, b)
-			r.Check(!between, rule, w.InstrPos(c), "Compile", "call "+callee.Name()+" (rewrites the tree)", "cannot execute between check and buildExpr", "a tree-rewriting call can run after the size check: flattening can raise an operand count past the checked limit")
+			r.Check(!between, rule, w.InstrPos(c), "Compile", "call "+nm(callee)+" (rewrites the tree)", "cannot execute between check and buildExpr", "a tree-rewriting call can run after the size check: flattening can raise an operand count past the checked limit")
 		})
 	}
 }
@@ -716,46 +716,11 @@ func ruleStackClass(w *World, r *Report) {
 		}
 		// the stack: the []Value phi/alloc indexed by osTop; find allocations of []Value / [N]Value
 		var classes []string
-		EachInstrDeep(fn, func(in ssa.Instruction) {
-			var n int64 = -1
-			sizeDesc := ""
-			var v ssa.Value
-			switch x := in.(type) {
-			case *ssa.Slice:
-				al, ok := x.X.(*ssa.Alloc)
-				if !ok || al.Comment != "makeslice" {
-					return
-				}
-				arr, ok := deref(al.Type()).Underlying().(*types.Array)
-				if !ok || typeNameOf(arr.Elem()) != "Value" {
-					return
-				}
-				n = arr.Len()
-				if h, ok := constInt(x.High); ok && h < n {
-					n = h
-				}
-				v = x
-			case *ssa.MakeSlice:
-				sl, ok := x.Type().Underlying().(*types.Slice)
-				if !ok || typeNameOf(sl.Elem()) != "Value" {
-					return
-				}
-				// only the stack allocation: reached under a maxStackSize test
-				v = x
-				if c, ok := constInt(x.Len); ok {
-					n = c
-				} else if lengthClass(x.Len, 0) == "nodes" {
-					sizeDesc = "len(nodes)"
-				} else {
-					sizeDesc = "?" + describe(x.Len)
-				}
-			default:
-				return
-			}
-			// bounds on maxStackSize at this block
+		// one class: a stack length together with the bounds on maxStackSize known where it is chosen
+		classify := func(n int64, sizeDesc string, facts []Fact, pos string) {
 			lo, hi := int64(-1), int64(-1)
 			relevant := false
-			for _, f := range factsAt(in.Block()) {
+			for _, f := range facts {
 				bo, ok := f.Cond.(*ssa.BinOp)
 				if !ok {
 					continue
@@ -786,14 +751,62 @@ func ruleStackClass(w *World, r *Report) {
 			if !relevant {
 				return // not a stack class (e.g. the params slice)
 			}
-			_ = v
-			pos := w.InstrPos(in)
 			if hi >= 0 {
 				classes = append(classes, fmt.Sprintf("<=%d:%d", hi, n))
-				r.Check(n >= hi, rule, pos, name, fmt.Sprintf("stack of %d slots under maxStackSize <= %d", n, hi), "large enough for every program in the class", fmt.Sprintf("programs needing %d..%d slots get only %d: the operand stack overflows", n+1, hi, n))
+				r.Check(n >= hi, rule, pos, name, fmt.Sprintf("stack of %d slots under maxStackSize <= %d", n, hi), "large enough for every program in the class", fmt.Sprintf("programs needing %d..%d slots get a stack of %d: Eval indexes past its end", n+1, hi, n))
 			} else {
 				classes = append(classes, "else:"+sizeDesc)
 				r.Check(sizeDesc == "len(nodes)", rule, pos, name, "fall-through stack of "+sizeDesc+n64(n), "the program length bounds the stack depth", "the fall-through class does not allocate the program length")
+			}
+		}
+		lenOf := func(l ssa.Value) (int64, string) {
+			if c, ok := constInt(l); ok {
+				return c, ""
+			}
+			if lengthClass(l, 0) == "nodes" {
+				return -1, "len(nodes)"
+			}
+			return -1, "?" + describe(l)
+		}
+		EachInstrDeep(fn, func(in ssa.Instruction) {
+			switch x := in.(type) {
+			case *ssa.Slice:
+				al, ok := x.X.(*ssa.Alloc)
+				if !ok || al.Comment != "makeslice" {
+					return
+				}
+				arr, ok := deref(al.Type()).Underlying().(*types.Array)
+				if !ok || typeNameOf(arr.Elem()) != "Value" {
+					return
+				}
+				n := arr.Len()
+				if h, ok := constInt(x.High); ok && h < n {
+					n = h
+				}
+				classify(n, "", factsAt(in.Block()), w.InstrPos(in))
+			case *ssa.MakeSlice:
+				sl, ok := x.Type().Underlying().(*types.Slice)
+				if !ok || typeNameOf(sl.Elem()) != "Value" {
+					return
+				}
+				// the length chosen first and the stack made once: one class per way the length was chosen
+				l := x.Len
+				if cv, okc := l.(*ssa.Convert); okc {
+					l = cv.X
+				}
+				if phi, isPhi := l.(*ssa.Phi); isPhi {
+					var edges []leafAt
+					expandPhis(phi, phi.Block(), map[*ssa.Phi]bool{}, &edges)
+					for _, e := range edges {
+						n, d := lenOf(e.v)
+						to := phi.Block()
+						facts := append(factsAt(e.from), factsAtEdgeTo(e.from, to)...)
+						classify(n, d, facts, w.InstrPos(in))
+					}
+					return
+				}
+				n, d := lenOf(x.Len)
+				classify(n, d, factsAt(in.Block()), w.InstrPos(in))
 			}
 		})
 		sort.Strings(classes)
